@@ -15,10 +15,18 @@
    ParseURI never panics on any byte string (and its error positions lie inside the input);
    totality of the look-ups incl. the empty name; relocation never corrupts.
    Also the URI parameter / URI header lists (SafeURI.v).
-   Not proved: the stateless helpers (compare, signature, lookup other than the empty name) and accessors; that every field of a *message* is dereferenceable (proved for
-   the leaves only; C05 covers it by oracle); these the correspondence + crash oracle cover.
+   Every field of a successfully parsed message can be dereferenced (UpperBound.v, SigTotal.v): first
+   line, stored header names and values, body and every PHdrVals field - Call-ID, CSeq number / method /
+   value, Content-Length and Expires digits, all fields of From / To and of every Contact and P-Asserted-
+   Identity value incl. the scratch ones - end at or before the returned offset, which lies inside the buffer
+   (C04_parsed_message_fields_in_buffer; any feeding schedule: C04_parsed_values_in_buffer_fed, by C01);
+   GetMsgSig never panics on a parsed message (C04_signature_total).
+   Not proved: the other stateless helpers (compare, lookup other than the empty name) and accessors, and
+   field dereferenceability of a message after an error or a suspension beyond the parser invariants:
+   these the correspondence + crash oracle cover.
    Concurrency: model functions are pure; data races are runtime behaviour outside the model. *)
-From Sipsp Require Import Harness RunLemmas Safe SafeLeaf SafeMore SafeMsg Again SafeURI CapURI Resume Classify URIOffsets URIViews URILossless.
+From Sipsp Require Import Harness RunLemmas Safe SafeLeaf SafeMore SafeMsg Again SafeURI CapURI Resume Classify URIOffsets URIViews URILossless
+  Layout SigCoherent LowerBound UpperBound SigTotal.
 Theorem C04_safety_rule : forall (St : Type) (iter : list byte -> list byte -> N -> St -> ires St)
   (P : list byte -> list byte -> N -> St -> Prop) (Q : list byte -> list byte -> N -> N -> err -> St -> Prop),
   (forall pre rest i s, P pre rest i s ->
@@ -186,3 +194,28 @@ Theorem C04_fresh_uri_lists_satisfy_the_invariants : forall n o,
 Proof. exact (fun n o => conj (ul_inv_init n o) (uh_inv_init n o)). Qed.
 Print Assumptions C04_message.
 Print Assumptions C04_message_every_schedule.
+
+(* ---- every field of a parsed message lies inside the buffer; the signature function is total --------------------------------- *)
+Theorem C04_parsed_message_fields_in_buffer : forall flags buf offs L nh nc o m', offs <= nnat (length buf) ->
+  parse_sipmsg flags buf offs (msg_init L (repeat hdr0 nh) (repeat pfrom0 nc)) = Done o EOk m' ->
+  o <= nnat (length buf) /\ fl_inv o (m_fl m') /\ pf_end (m_body m') = o /\
+  Forall (fun h => pf_end (h_name h) <= o /\ pf_end (h_val h) <= o) (stored (hs_l (m_hs m'))) /\
+  UBv o (msg_pv m').
+Proof. exact message_fields_in_buffer. Qed.
+Theorem C04_parsed_values_in_buffer_fed : forall flags B offs bl n nc o s o' e m', testbit flags bSIPMsgNoMoreData = false -> offs <= nnat (length B) ->
+  feeds flags B offs (msg_init bl (repeat hdr0 n) (repeat pfrom0 nc)) o s ->
+  parse_sipmsg flags B o s = Done o' e m' -> m_state m' = MFIN \/ m_state m' = MNoCLen -> UBv (po (m_body m')) (msg_pv m').
+Proof. exact message_ub_fed. Qed.
+(* what UBv says: every PHdrVals field ends at or before i *)
+Theorem C04_values_bound_means : forall i v, UBv i v <->
+  fb_bnd 0 i (pv_from v) /\ fb_bnd 0 i (pv_to v) /\ pf_end (ci_callid (pv_callid v)) <= i /\ cs_inv i (pv_cseq v) /\
+  pf_end (ui_sval (pv_clen v)) <= i /\ pf_end (ui_sval (pv_expires v)) <= i /\
+  (Forall (fb_bnd 0 i) (ct_vals (pv_contacts v)) /\ fb_bnd 0 i (ct_last (pv_contacts v)) /\ fb_bnd 0 i (ct_first (pv_contacts v)) /\ pf_end (ct_lasthval (pv_contacts v)) <= i) /\
+  (Forall (fb_bnd 0 i) (pa_vals (pv_pais v)) /\ fb_bnd 0 i (pa_last (pv_pais v)) /\ pf_end (pa_lasthval (pv_pais v)) <= i).
+Proof. intros. reflexivity. Qed.
+Theorem C04_signature_total : forall cs ss vs flags buf offs L nh nc o m', offs <= nnat (length buf) ->
+  parse_sipmsg flags buf offs (msg_init L (repeat hdr0 nh) (repeat pfrom0 nc)) = Done o EOk m' ->
+  get_msg_sig cs ss vs m' buf <> None.
+Proof. exact gsig_total. Qed.
+Print Assumptions C04_parsed_message_fields_in_buffer.
+Print Assumptions C04_signature_total.
